@@ -37,6 +37,7 @@ import re as _re
 _LOCALSTRUCT = _re.compile(r"^(\w+)[.\[]")
 _OFF = _re.compile(r"^\((.*)\+#(\d+)\)$")
 _NEVERNULL = {}
+_GENLINES = {}
 _PTRCOPY = _re.compile(r"^((?:[A-Za-z_]\w*)(?:(?:->|\.)\w+)+)@\d+$")
 
 
@@ -218,8 +219,9 @@ class APE:
         g = self.prog.helper(callee, self.unit) if hasattr(self.prog, "helper") else None
         if g is None and (callee in self.inline or "*static" in self.inline):
             g = self.prog.func(callee, self.unit)
-            if g is not None and callee not in self.inline and not (g.d.get("static") and g.file == self.f.file):
-                g = None        # "*static": internal functions written in the same source file only (not header inlines)
+            if g is not None and callee not in self.inline and not (g.d.get("static") and g.file == self.f.file and not self._generated(g)):
+                g = None        # "*static": internal functions written in the same source file only (not header inlines,
+                                # not the container functions a macro generates: those stay calls, see rules/vecrule.py)
         if g is None or g.body is None:
             return None
         if g is self.f or any(fr.func is g for fr in st.frames):
@@ -941,6 +943,18 @@ class APE:
                 break
         cache[key] = ok
         return ok
+
+    def _generated(self, g):
+        """Is g one of several functions defined on the same source line (the expansion of a generator macro)?"""
+        cache = _GENLINES.get(id(self.prog))
+        if cache is None:
+            cache = {}
+            for (u, nm), h in self.prog.funcs.items():
+                cache.setdefault((u, h.file, h.line), set()).add(nm)
+            for key_, h in getattr(self.prog, "helpers", {}).items():
+                cache.setdefault((h.unit, h.file, h.line), set()).add(h.name)
+            _GENLINES[id(self.prog)] = cache
+        return len(cache.get((g.unit, g.file, g.line), ())) > 1
 
     def _loops(self, f):
         c = self._loopcache.get(id(f))
